@@ -341,4 +341,294 @@ Proof.
     + cbn [Post]. split; [|reflexivity]. eapply relD_change; [exact HR| | | | |]; reflexivity.
 Qed.
 
+(* ------------------------------------------------------------ KLoop *)
+Lemma exec_loop : forall f wf ev cur w, exec fixed env (S f) (KLoop wf ev cur) w =
+  match cur with
+  | None => Ok (w, 0)
+  | Some d =>
+      match find_node d (first (ws w)) with
+      | None => Fault
+      | Some b =>
+          if b_ev b =? ev then
+            let '(s1, flags) := visit fixed wf b (ws w) in
+            rbind (exec fixed env f (KCall (b_fn b) d flags) (log (TCallB d flags) (set_state s1 w)))
+                  (fun '(w1, ret) =>
+                     if wf && negb (ret =? 0) then Ok (w1, ret)
+                     else match next_of d (first (ws w1)) with
+                          | None => Fault
+                          | Some nx => exec fixed env f (KLoop wf ev nx) w1
+                          end)
+          else match next_of d (first (ws w)) with
+               | None => Fault
+               | Some nx => exec fixed env f (KLoop wf ev nx) w
+               end
+      end
+  end.
+Proof. reflexivity. Qed.
+
+Lemma visit_fixed : forall wf b s, visit fixed wf b s =
+  if has (b_flags b) BIND_ONESHOT
+  then (mkS (update_node (b_data b) tombstone (first s)) (is_iter s) true, EV_FIRE + EV_UNBIND)
+  else (s, EV_FIRE).
+Proof.
+  intros; unfold visit; cbn [oneshot_whilefalse oneshot_reentrant fixed].
+  rewrite !andb_false_r. cbn [negb]. rewrite andb_true_r. reflexivity.
+Qed.
+
+Lemma sound_loop : forall f, Sound f -> forall wf ev cur w m, Pre (KLoop wf ev cur) w m ->
+  match exec fixed env (S f) (KLoop wf ev cur) w with
+  | Fault => False | OutOfFuel => True
+  | Ok (w', r) => exists m', Com w m w' m' /\ Post (KLoop wf ev cur) m w' m' r
+  end.
+Proof.
+  intros f IH wf ev cur w m (HR & last & pending & st & Hst & Hev & Hcur & Hrange & Hpend).
+  rewrite exec_loop. destruct cur as [d|].
+  2:{ exists m; split; [apply com_refl|]. cbn [Post]. split; [exact HR|].
+      exists last, pending, false. rewrite Hst; cbn [tl]. split; [reflexivity|]. right.
+      intros a Ha Hin. destruct (Hpend a Ha Hin) as (_ & d & Hd & _); discriminate. }
+  destruct (Hcur d eq_refl) as (Hdin & Hlast).
+  pose proof HR as [Hinv Hlive Hn Hpos Hiter _ _]. rewrite app_nil_r in Hlive.
+  destruct (find_node_in _ _ Hdin) as (b & Hfb). rewrite Hfb.
+  destruct (find_node_some _ _ _ Hfb) as (Hbin & Hbd).
+  assert (Hit : is_iter (ws w) = true) by (rewrite Hiter, Hst; reflexivity).
+  pose proof (si_nodes _ _ Hinv) as Hnodes. rewrite Forall_forall in Hnodes.
+  pose proof (si_sorted _ _ Hinv) as Hsorted.
+  (* an element of the monitor's list named d is b's abstraction *)
+  assert (Hbabs : forall a, In a (m_live m) -> a_name a = d -> a = abs_of b).
+  { intros a Ha He. rewrite Hlive in Ha. apply abs_in_live in Ha; destruct Ha as (b' & Hb' & _ & ->).
+    cbn [abs_of a_name] in He. f_equal. eapply names_unique; eauto. congruence. }
+  destruct (b_ev b =? ev) eqn:Eev.
+  - (* the handler is invoked *)
+    assert (Lv : live b = true).
+    { destruct (live b) eqn:Lv; auto. exfalso. destruct (Hnodes _ Hbin) as (_ & _ & Ht).
+      rewrite (Ht Lv) in Eev. cbn [tombstone b_ev] in Eev. apply Z.eqb_eq in Eev. lia. }
+    assert (Hfn : b_fn b <> None) by (destruct (Hnodes _ Hbin) as (_ & Hl & _); apply Hl; exact Lv).
+    assert (Hfl : find_live d (m_live m) = Some (abs_of b)).
+    { rewrite Hlive, <- Hbd. apply (find_live_in (abs_list (first (ws w))) (abs_of b)).
+      - apply abs_names_sorted; exact Hsorted.
+      - apply in_abs_list; auto. }
+    set (pend1 := remove_name d pending).
+    (* what follows the logging of TCallB, for either kind of binding *)
+    assert (Hcommon : forall s1 flags m1,
+      mon_step m (TCallB d flags) = inl m1 ->
+      Rel (log (TCallB d flags) (set_state s1 w)) m1 ->
+      m_stack m1 = FCall :: FEmit wf ev (Some d) pend1 false :: st ->
+      incl (m_live m1) (m_live m) -> m_n m1 = m_n m -> names (first s1) = names (first (ws w)) ->
+      match rbind (exec fixed env f (KCall (b_fn b) d flags) (log (TCallB d flags) (set_state s1 w)))
+                  (fun '(w1, ret) =>
+                     if wf && negb (ret =? 0) then Ok (w1, ret)
+                     else match next_of d (first (ws w1)) with
+                          | None => Fault
+                          | Some nx => exec fixed env f (KLoop wf ev nx) w1
+                          end) with
+      | Fault => False | OutOfFuel => True
+      | Ok (w', r) => exists m', Com w m w' m' /\ Post (KLoop wf ev (Some d)) m w' m' r
+      end).
+    { intros s1 flags m1 Hstep HR1 Hst1 Hsub Hn1 Hnames.
+      set (w1 := log (TCallB d flags) (set_state s1 w)) in *.
+      assert (C01 : Com w m w1 m1).
+      { split; [|split].
+        - exists [TCallB d flags]; split; [reflexivity|]. cbn [rev app mon_run]; rewrite Hstep; reflexivity.
+        - apply mono_subset; auto.
+        - intros _. cbn [w1 log set_state ws]. rewrite Hnames. apply incl_refl. }
+      assert (Hit1 : is_iter (ws w1) = true) by (rewrite (rel_iter _ _ HR1), Hst1; reflexivity).
+      pose proof (IH (KCall (b_fn b) d flags) w1 m1) as H1. cbn [Pre] in H1.
+      specialize (H1 (conj Hfn (conj HR1 (ex_intro _ _ Hst1)))).
+      destruct (exec fixed env f (KCall (b_fn b) d flags) w1) as [[w2 r2]| |]; cbn [rbind]; auto.
+      destruct H1 as (m2 & C12 & HR2 & Hst2). cbn [Post] in Hst2. rewrite Hst1 in Hst2; cbn [tl] in Hst2.
+      assert (C02 : Com w m w2 m2) by (eapply com_trans; eauto).
+      destruct (wf && negb (r2 =? 0)) eqn:Ecl.
+      - (* claimed: run_event_whilefalse stops *)
+        apply andb_true_iff in Ecl; destruct Ecl as (-> & Er).
+        exists m2. split; [exact C02|]. cbn [Post]. split; [exact HR2|].
+        exists (Some d), pend1, true. rewrite Hst; cbn [tl]. split; [|left; reflexivity].
+        rewrite Hst2. cbn [ret_stack]. rewrite Er. reflexivity.
+      - assert (Hst2' : m_stack m2 = FEmit wf ev (Some d) pend1 false :: st).
+        { rewrite Hst2. destruct wf; [|reflexivity]. cbn [ret_stack andb] in *. rewrite Ecl. reflexivity. }
+        destruct C12 as (S12 & M12 & K12).
+        assert (Hdin2 : In d (names (first (ws w2)))).
+        { apply K12; [exact Hit1|]. cbn [w1 log set_state ws]. rewrite Hnames. exact Hdin. }
+        destruct (next_of_in _ _ Hdin2) as (nx & Hnx). rewrite Hnx.
+        pose proof HR2 as [Hinv2 Hlive2 Hn2 _ _ _ _]. rewrite app_nil_r in Hlive2.
+        destruct (next_of_sorted _ _ _ (si_sorted _ _ Hinv2) Hnx) as (_ & Hsucc).
+        pose proof (IH (KLoop wf ev nx) w2 m2) as H2. cbn [Pre] in H2.
+        assert (HLI : LoopInv ev nx (Some d) pend1 w2 m2).
+        { split; [exact Hev|]. split; [|split].
+          - intros e ->. destruct Hsucc as (He & Hlt & _). auto.
+          - destruct M12 as (Hle & _). rewrite Forall_forall in *. intros n Hin.
+            apply remove_name_in in Hin; destruct Hin as (Hin & _). specialize (Hrange _ Hin). lia.
+          - intros a Ha Hin. apply remove_name_in in Hin; destruct Hin as (Hin & Hne).
+            assert (Ha1 : In a (m_live m1)).
+            { destruct M12 as (_ & Hm). apply Hm; [exact Ha|]. rewrite Hn1. rewrite Forall_forall in Hrange; auto. }
+            destruct (Hpend a (Hsub _ Ha1) Hin) as (Hae & d' & Hd' & Hle). injection Hd' as <-.
+            split; [exact Hae|].
+            assert (Han : In (a_name a) (names (first (ws w2)))) by (apply abs_names_in; rewrite <- Hlive2; exact Ha).
+            destruct nx as [e|].
+            + destruct Hsucc as (_ & _ & Hmin). exists e; split; [reflexivity|]. apply Hmin; [exact Han|lia].
+            + specialize (Hsucc _ Han). lia. }
+        specialize (H2 (conj HR2 (ex_intro _ _ (ex_intro _ _ (ex_intro _ _ (conj Hst2' HLI)))))).
+        destruct (exec fixed env f (KLoop wf ev nx) w2) as [[w3 r3]| |]; auto.
+        destruct H2 as (m3 & C23 & HR3 & last3 & pend3 & cl3 & Hst3 & Hfin).
+        exists m3. split.
+        + eapply com_trans; [exact C02|exact C23|].
+          intros _. rewrite (rel_iter _ _ HR2), Hst2'. reflexivity.
+        + cbn [Post]. split; [exact HR3|]. exists last3, pend3, cl3. rewrite Hst; cbn [tl].
+          rewrite Hst2' in Hst3; cbn [tl] in Hst3. auto. }
+    rewrite visit_fixed. destruct (has (b_flags b) BIND_ONESHOT) eqn:Eos.
+    + (* one-shot: consumed before it runs *)
+      set (m1 := mkM (remove_live d (m_live m)) (m_n m) (FCall :: FEmit wf ev (Some d) pend1 false :: st)).
+      apply (Hcommon _ _ m1).
+      * unfold mon_step. rewrite Hst, Hfl. cbn [abs_of a_ev a_flags]. rewrite Eev; cbn [negb].
+        replace (match last with Some l => d <=? l | None => false end) with false
+          by (destruct last as [l|]; [symmetry; apply Z.leb_gt; exact Hlast|reflexivity]).
+        rewrite Eos, Z.eqb_refl. reflexivity.
+      * constructor; cbn [log set_state ws wn m1 m_live m_n m_stack first is_iter needs_del]; auto.
+        -- rewrite Hit. apply SInv_tombstone; exact Hinv.
+        -- rewrite app_nil_r, Hbd, abs_list_update_dead, Hlive; reflexivity.
+      * reflexivity.
+      * intros a Ha; apply remove_live_in in Ha; tauto.
+      * reflexivity.
+      * cbn [first]. apply names_update; reflexivity.
+    + set (m1 := mkM (m_live m) (m_n m) (FCall :: FEmit wf ev (Some d) pend1 false :: st)).
+      apply (Hcommon _ _ m1).
+      * unfold mon_step. rewrite Hst, Hfl. cbn [abs_of a_ev a_flags]. rewrite Eev; cbn [negb].
+        replace (match last with Some l => d <=? l | None => false end) with false
+          by (destruct last as [l|]; [symmetry; apply Z.leb_gt; exact Hlast|reflexivity]).
+        rewrite Eos, Z.eqb_refl. reflexivity.
+      * eapply relD_change; [exact HR| | | | |]; try reflexivity.
+        cbn [m1 m_stack]. rewrite Hst. reflexivity.
+      * reflexivity.
+      * apply incl_refl.
+      * reflexivity.
+      * reflexivity.
+  - (* bound to another event, or a tombstone: step over it *)
+    apply Z.eqb_neq in Eev.
+    destruct (next_of_in _ _ Hdin) as (nx & Hnx). rewrite Hnx.
+    destruct (next_of_sorted _ _ _ Hsorted Hnx) as (_ & Hsucc).
+    pose proof (IH (KLoop wf ev nx) w m) as H2. cbn [Pre] in H2.
+    assert (HLI : LoopInv ev nx last pending w m).
+    { split; [exact Hev|]. split; [|split; [exact Hrange|]].
+      - intros e ->. destruct Hsucc as (He & Hlt & _). split; [exact He|]. destruct last; lia.
+      - intros a Ha Hin. destruct (Hpend a Ha Hin) as (Hae & d' & Hd' & Hle). injection Hd' as <-.
+        split; [exact Hae|].
+        assert (a_name a <> d).
+        { intros He. rewrite (Hbabs a Ha He) in Hae. cbn [abs_of a_ev] in Hae. contradiction. }
+        assert (Han : In (a_name a) (names (first (ws w)))) by (apply abs_names_in; rewrite <- Hlive; exact Ha).
+        destruct nx as [e|].
+        + destruct Hsucc as (_ & _ & Hmin). exists e; split; [reflexivity|]. apply Hmin; [exact Han|lia].
+        + specialize (Hsucc _ Han). lia. }
+    specialize (H2 (conj HR (ex_intro _ _ (ex_intro _ _ (ex_intro _ _ (conj Hst HLI)))))).
+    destruct (exec fixed env f (KLoop wf ev nx) w) as [[w3 r3]| |]; auto.
+Qed.
+
+(* ------------------------------------------------------------ KAct (AEmit ev), KAct (AEmitWF ev) *)
+Lemma pending_none_live : forall live pending,
+  (forall a, In a live -> ~ In (a_name a) pending) -> existsb (is_live live) pending = false.
+Proof.
+  intros live pending H. destruct (existsb (is_live live) pending) eqn:E; auto. exfalso.
+  apply existsb_exists in E; destruct E as (n & Hn & Hl). unfold is_live in Hl.
+  apply existsb_exists in Hl; destruct Hl as (a & Ha & He). apply Z.eqb_eq in He. subst n. eapply H; eauto.
+Qed.
+
+Lemma emit_core : forall f, Sound f -> forall wf ev w m,
+  Rel w m -> app_context (m_stack m) = true -> 0 <= ev ->
+  match exec fixed env f (KLoop wf ev (head_name (first (ws w))))
+             (log (TEmitB wf ev) (set_state (begin_iteration (ws w)) w)) with
+  | Fault => False | OutOfFuel => True
+  | Ok (w2, r) => forall r',
+      let w' := log (TEmitE r') (set_state (end_iteration (is_iter (ws w)) (ws w2)) w2) in
+      exists m', Com w m w' m' /\ Rel w' m' /\ m_stack m' = m_stack m
+  end.
+Proof.
+  intros f IH wf ev w m HR Hctx Hev.
+  pose proof HR as [Hinv Hlive Hn Hpos Hiter _ _]. rewrite app_nil_r in Hlive.
+  set (pending0 := map a_name (filter (fun a => a_ev a =? ev) (m_live m))).
+  set (m1 := mkM (m_live m) (m_n m) (FEmit wf ev None pending0 false :: m_stack m)).
+  set (w1 := log (TEmitB wf ev) (set_state (begin_iteration (ws w)) w)).
+  assert (Hstep0 : mon_step m (TEmitB wf ev) = inl m1).
+  { unfold mon_step. rewrite Hctx. reflexivity. }
+  assert (HR1 : Rel w1 m1).
+  { constructor; cbn [w1 log set_state ws wn m1 m_live m_n m_stack begin_iteration first is_iter]; auto.
+    - apply SInv_begin; exact Hinv.
+    - rewrite app_nil_r; exact Hlive. }
+  assert (C01 : Com w m w1 m1).
+  { split; [|split].
+    - exists [TEmitB wf ev]; split; [reflexivity|]. cbn [rev app mon_run]; rewrite Hstep0; reflexivity.
+    - apply mono_subset; [reflexivity|apply incl_refl].
+    - intros _; apply incl_refl. }
+  pose proof (si_sorted _ _ Hinv) as Hsorted.
+  assert (HLI : LoopInv ev (head_name (first (ws w))) None pending0 w1 m1).
+  { pose proof (head_name_sorted _ Hsorted) as Hhd.
+    split; [exact Hev|]. split; [|split].
+    - intros d Hd. rewrite Hd in Hhd. destruct Hhd as (Hin & _). split; [exact Hin|exact I].
+    - rewrite Forall_forall. intros n Hin. unfold pending0 in Hin. apply in_map_iff in Hin.
+      destruct Hin as (a & <- & Ha). apply filter_In in Ha; destruct Ha as (Ha & _).
+      cbn [m1 m_n]. rewrite Hn. rewrite Hlive in Ha. eapply abs_range; [apply (si_nodes _ _ Hinv)|exact Ha].
+    - cbn [m1 m_live]. intros a Ha Hin. unfold pending0 in Hin. apply in_map_iff in Hin.
+      destruct Hin as (a' & Hname & Ha'). apply filter_In in Ha'; destruct Ha' as (Ha' & Hev').
+      assert (a' = a).
+      { eapply live_unique; eauto. rewrite Hlive. apply abs_names_sorted; exact Hsorted. }
+      subst a'. apply Z.eqb_eq in Hev'. split; [exact Hev'|].
+      assert (Han : In (a_name a) (names (first (ws w)))) by (apply abs_names_in; rewrite <- Hlive; exact Ha).
+      destruct (head_name (first (ws w))) as [e|].
+      + destruct Hhd as (_ & Hmin). exists e; split; [reflexivity|apply Hmin; exact Han].
+      + rewrite Hhd in Han. destruct Han. }
+  pose proof (IH (KLoop wf ev (head_name (first (ws w)))) w1 m1) as H1. cbn [Pre] in H1.
+  specialize (H1 (conj HR1 (ex_intro _ _ (ex_intro _ _ (ex_intro _ _ (conj eq_refl HLI)))))).
+  fold w1. destruct (exec fixed env f (KLoop wf ev (head_name (first (ws w)))) w1) as [[w2 r2]| |]; auto.
+  destruct H1 as (m2 & C12 & HR2 & last2 & pend2 & cl2 & Hst2 & Hfin). cbn [m1 m_stack tl] in Hst2.
+  intros r'. cbv zeta.
+  set (m' := mkM (m_live m2) (m_n m2) (m_stack m)).
+  assert (Hstep2 : mon_step m2 (TEmitE r') = inl m').
+  { unfold mon_step. rewrite Hst2.
+    replace (cl2 || negb (existsb (is_live (m_live m2)) pend2)) with true; [reflexivity|].
+    destruct Hfin as [->|Hnone]; [reflexivity|]. rewrite pending_none_live by exact Hnone.
+    destruct cl2; reflexivity. }
+  assert (Hit2 : is_iter (ws w2) = true) by (rewrite (rel_iter _ _ HR2), Hst2; reflexivity).
+  destruct C01 as (S01 & M01 & K01). destruct C12 as (S12 & M12 & K12).
+  exists m'. split; [split; [|split]|split].
+  - eapply steps_trans; [exact S01|]. eapply steps_trans; [exact S12|].
+    exists [TEmitE r']; split; [reflexivity|]. cbn [rev app mon_run]; rewrite Hstep2; reflexivity.
+  - eapply mono_trans; [exact M01|]. eapply mono_trans; [exact M12|].
+    apply mono_subset; [reflexivity|apply incl_refl].
+  - intros Hw. cbn [log set_state ws]. rewrite Hw. rewrite names_end_iteration_true.
+    eapply incl_tran; [apply K01; exact Hw|apply K12; reflexivity].
+  - apply rel_end_iteration with m2; auto.
+  - reflexivity.
+Qed.
+
+Lemma sound_emit : forall f, Sound f -> forall ev w m, Pre (KAct (AEmit ev)) w m ->
+  match exec fixed env (S f) (KAct (AEmit ev)) w with
+  | Fault => False | OutOfFuel => True
+  | Ok (w', r) => exists m', Com w m w' m' /\ Post (KAct (AEmit ev)) m w' m' r
+  end.
+Proof.
+  intros f IH ev w m (HR & Hctx & Hev & _). cbn [top_ok] in Hev.
+  pose proof (emit_core f IH false ev w m HR Hctx Hev) as H.
+  change (exec fixed env (S f) (KAct (AEmit ev)) w) with
+    (rbind (exec fixed env f (KLoop false ev (head_name (first (ws w))))
+                 (log (TEmitB false ev) (set_state (begin_iteration (ws w)) w)))
+           (fun '(w2, _) => Ok (log (TEmitE 0) (set_state (end_iteration (is_iter (ws w)) (ws w2)) w2), 0))).
+  destruct (exec fixed env f (KLoop false ev (head_name (first (ws w))))
+                 (log (TEmitB false ev) (set_state (begin_iteration (ws w)) w))) as [[w2 r2]| |]; cbn [rbind]; auto.
+  destruct (H 0) as (m' & C & HR' & Hst'). exists m'; split; [exact C|]. cbn [Post]; auto.
+Qed.
+
+Lemma sound_emitwf : forall f, Sound f -> forall ev w m, Pre (KAct (AEmitWF ev)) w m ->
+  match exec fixed env (S f) (KAct (AEmitWF ev)) w with
+  | Fault => False | OutOfFuel => True
+  | Ok (w', r) => exists m', Com w m w' m' /\ Post (KAct (AEmitWF ev)) m w' m' r
+  end.
+Proof.
+  intros f IH ev w m (HR & Hctx & Hev & _). cbn [top_ok] in Hev.
+  pose proof (emit_core f IH true ev w m HR Hctx Hev) as H.
+  change (exec fixed env (S f) (KAct (AEmitWF ev)) w) with
+    (rbind (exec fixed env f (KLoop true ev (head_name (first (ws w))))
+                 (log (TEmitB true ev) (set_state (begin_iteration (ws w)) w)))
+           (fun '(w2, ret) => Ok (log (TEmitE ret) (set_state (end_iteration (is_iter (ws w)) (ws w2)) w2), ret))).
+  destruct (exec fixed env f (KLoop true ev (head_name (first (ws w))))
+                 (log (TEmitB true ev) (set_state (begin_iteration (ws w)) w))) as [[w2 r2]| |]; cbn [rbind]; auto.
+  destruct (H r2) as (m' & C & HR' & Hst'). exists m'; split; [exact C|]. cbn [Post]; auto.
+Qed.
+
 End Sound.
